@@ -2,6 +2,7 @@
 from ..core import rng_for, rand_digits, M64, ndig, Cmd, U, I, PANIC, Problem, chk_big, parse_tok
 from ..arith import cmd_bb, cmd_sf
 
+THOROUGH_SEEDS = 10   # the thorough tier repeats its staged workload over this many derived seeds
 RULE = ('shorter-operand lengths on both sides of every regime threshold (1,2,32/33,256/257 ...) x longer = '
         '{s, s+1, 2s-1, 2s, 2s+1, 3s-1, 3s, 3s+1, 64s} x digit patterns (all-ones, random, sparse, low zero digits, '
         'digit-aligned 0/MAX blocks, halves ordered to force each Karatsuba middle-term sign, squares, Toom-3 with '
